@@ -8,3 +8,7 @@ def run(tier):
         reps.append(deductive.verify_function(rel, q, c, hooks=DP.hooks_for(c)))
     reps.append(deductive.lemma_report())
     return reps
+
+
+def replay(prop, ob):
+    return DP.replay(ob)
